@@ -492,6 +492,11 @@ class Verifier(Engine):
             n = z3.Length(base.t)
             hi = self.coerce(self.ev_v(sl.upper), T.INT).t if sl.upper is not None else n
             return V(T.STR, z3.SubString(base.t, lo, hi - lo))
+        if base.ty.kind == "bytes":
+            lo = self.coerce(self.ev_v(sl.lower), T.INT).t if sl.lower is not None else z3.IntVal(0)
+            hi = self.coerce(self.ev_v(sl.upper), T.INT).t if sl.upper is not None else z3.IntVal(-1)
+            f = z3.Function("bytes_slice", sort_of(T.BYTES), z3.IntSort(), z3.IntSort(), sort_of(T.BYTES))
+            return V(T.BYTES, f(base.t, lo, hi))
         raise Unsupported("slice of %r" % (base.ty,))
 
     def ev_ListComp(self, n):
